@@ -188,9 +188,7 @@ theorem plan_safe {F : Facts} (hF : F.OK = true) (cfg : Cfg) (st : St) (op : Op)
     refine withMref_safe _ _ fun a => withMref_safe _ _ fun b => withInfo_safe _ _ fun ai =>
       withInfo_safe _ _ fun bi => ?_
     split
-    · split
-      · exact newMapPlan_safe _ _
-      · exact allSafe_err
+    · exact allSafe_err
     · exact newMapPlan_safe _ _
   | rpl x y =>
     refine withMref_safe _ _ fun m => withMref_safe _ _ fun r => withInfo_safe _ _ fun _ => ?_
